@@ -2569,3 +2569,331 @@ Proof.
   split; [exact Hl|]. split; [exact Hf|]. split; [|exact Hadv].
   rewrite <- (prs_has_quorum_conf _ _ _ Hcf2). exact Hq.
 Qed.
+
+(* ================================================================== *)
+(* 15. every other API function: commit index monotone, read-only      *)
+(*     option kept, representation invariant kept                      *)
+(* ================================================================== *)
+
+Theorem tick_gx r r' b : tick r = Ok (r', b) -> gx r r'.
+Proof.
+  intros H. unfold tick in H.
+  assert (Hstep : forall ra mm rb cb, step ra mm = Ok (rb, cb) -> gx ra rb).
+  { intros ra mm rb cb Hs. apply step_read_origin in Hs. apply Hs. }
+  assert (Hel : tick_election r = Ok (r', b) -> gx r r').
+  { intros He. unfold tick_election in He.
+    cif He.
+    - inversion He; subst. apply fx_gx. fx_solve.
+    - inv_bind He. inversion He; subst. destruct x as [r1 c1]. cbn [fst].
+      apply Hstep in Hx. eapply gx_trans; [|exact Hx]. apply fx_gx. fx_solve. }
+  destruct (r_state r); try (apply Hel; exact H).
+  clear Hel. unfold tick_heartbeat in H. inv_bind H. destruct x as [r1 hr].
+  set (r0 := r <| r_heartbeat_elapsed := r_heartbeat_elapsed r + 1 |>
+               <| r_election_elapsed := r_election_elapsed r + 1 |>) in *.
+  assert (H0 : gx r r0) by (apply fx_gx; unfold r0; fx_solve).
+  assert (H1 : gx r0 r1).
+  { destruct (r_election_timeout r0 <=? r_election_elapsed r0); [|inversion Hx; subst; apply gx_refl].
+    inv_bind Hx. destruct x as [ra ha]. inversion Hx; subst. clear Hx.
+    assert (Hra : gx r0 ra).
+    { destruct (r_check_quorum (r0 <| r_election_elapsed := 0 |>)).
+      - inv_bind Hx0. inversion Hx0; subst. destruct x as [rb cb]. cbn [fst].
+        apply Hstep in Hx. eapply gx_trans; [|exact Hx]. apply fx_gx. fx_solve.
+      - inversion Hx0; subst. apply fx_gx. fx_solve. }
+    destruct (is_leader ra && _); [|exact Hra].
+    eapply gx_trans; [exact Hra|]. apply fx_gx. fx_solve. }
+  eapply gx_trans; [exact H0|]. eapply gx_trans; [exact H1|].
+  destruct (negb (is_leader r1)); [inversion H; subst; apply gx_refl|].
+  destruct (r_heartbeat_timeout r1 <=? r_heartbeat_elapsed r1); [|inversion H; subst; apply gx_refl].
+  inv_bind H. inversion H; subst. destruct x as [rb cb]. cbn [fst].
+  apply Hstep in Hx0. eapply gx_trans; [|exact Hx0]. apply fx_gx. fx_solve.
+Qed.
+
+Theorem raft_apply_conf_change_gx r cc r' ocs : raft_apply_conf_change r cc = Ok (r', ocs) -> gx r r'.
+Proof.
+  unfold raft_apply_conf_change. intros H.
+  match type of H with match ?res with _ => _ end = _ => destruct res as [[c' chs]|e] end.
+  - inv_bind H. inversion H; subst. destruct x as [r1 cs1]. cbn [fst].
+    apply post_conf_change_reads in Hx. destruct Hx as [Hg _].
+    eapply gx_trans; [|exact Hg]. apply fx_gx. unfold set_conf_prs. fx_solve.
+  - inversion H; subst. apply gx_refl.
+Qed.
+
+Lemma maybe_persist_committed l i t l' b : maybe_persist l i t = Ok (l', b) -> committed l' = committed l.
+Proof.
+  unfold maybe_persist. intros H. cif H; [|inversion H; reflexivity].
+  inv_bind H. destruct (term_ok_eq x t); inversion H; reflexivity.
+Qed.
+
+Theorem on_persist_entries_fx r i t r' : on_persist_entries r i t = Ok r' -> fx r r'.
+Proof.
+  unfold on_persist_entries. intros H. inv_bind H. destruct x as [l' upd].
+  apply maybe_persist_committed in Hx.
+  assert (H0 : fx r (r <| r_log := l' |>)) by (apply set_log_fx; lia).
+  eapply fx_trans; [exact H0|].
+  destruct (upd && is_leader (r <| r_log := l' |>)); [|inversion H; subst; apply fx_refl].
+  destruct (get_pr (r <| r_log := l' |>) (r_id (r <| r_log := l' |>))); [|discriminate].
+  destruct (maybe_update p i) as [pr' u].
+  eapply fx_trans; [apply lf_fx; apply put_pr_lf|].
+  destruct u; [|inversion H; subst; apply fx_refl].
+  inv_bind H. destruct x as [r1 c]. apply maybe_commit_fx in Hx0.
+  eapply fx_trans; [exact Hx0|].
+  destruct (c && should_bcast_commit r1); [apply lf_fx; eapply bcast_append_lf; exact H|].
+  inversion H; subst; apply fx_refl.
+Qed.
+
+Theorem on_persist_snap_fx r i r' : on_persist_snap r i = Ok r' -> fx r r'.
+Proof.
+  unfold on_persist_snap. intros H. inv_bind H. inversion H; subst. apply set_log_fx.
+  unfold maybe_persist_snap in Hx. destruct (persisted (r_log r) <? i); [|inversion Hx; cbn; lia].
+  destruct (committed (r_log r) <? i); [discriminate|]. destruct (_ <=? i); [discriminate|].
+  inversion Hx; subst. cbn. lia.
+Qed.
+
+Theorem commit_apply_internal_fx r app skip r' : commit_apply_internal r app skip = Ok r' -> fx r r'.
+Proof.
+  unfold commit_apply_internal. intros H. inv_bind H.
+  assert (Hc : committed x = committed (r_log r)).
+  { destruct (negb skip).
+    - unfold applied_to in Hx. destruct (app =? 0); [inversion Hx; reflexivity|].
+      destruct (_ || _); [discriminate|]. inversion Hx; reflexivity.
+    - destruct (app =? 0); [discriminate|]. inversion Hx; reflexivity. }
+  assert (H0 : fx r (r <| r_log := x |>)) by (apply set_log_fx; lia).
+  eapply fx_trans; [exact H0|].
+  cif H; [|inversion H; subst; apply fx_refl].
+  inv_bind H. destruct x0 as [r1 ok]. destruct ok; cbn [negb] in H; [|discriminate].
+  inversion H; subst. apply append_entry_lite in Hx0. destruct Hx0 as (A & B & C0 & D & F).
+  cbn in A, B, C0, D, F. unfold fx. cbn. rewrite A, B, C0, D, F. repeat split; auto. lia.
+Qed.
+
+Theorem commit_apply_fx r app r' : commit_apply r app = Ok r' -> fx r r'.
+Proof. apply commit_apply_internal_fx. Qed.
+
+Theorem load_state_fx r hs r' : load_state r hs = Ok r' -> fx r r'.
+Proof.
+  unfold load_state. intros H. destruct (hs_commit hs <? committed (r_log r)) eqn:E; [discriminate|].
+  cbn [orb] in H. destruct (last_index (r_log r) <? hs_commit hs); [discriminate|].
+  inversion H; subst. unfold fx. cbn. repeat split; auto. lia.
+Qed.
+
+Theorem request_snapshot_fx r r' c : request_snapshot r = Ok (r', c) -> fx r r'.
+Proof.
+  unfold request_snapshot. intros H.
+  destruct (is_leader r); [inversion H; apply fx_refl|].
+  destruct (r_leader_id r =? INVALID_ID); [inversion H; apply fx_refl|].
+  cif H; [inversion H; apply fx_refl|].
+  cif H; [inversion H; apply fx_refl|].
+  inv_bind H. destruct x as [rt|]; [|discriminate].
+  destruct (r_term r =? rt); [|inversion H; apply fx_refl].
+  inv_bind H. inversion H; subst. apply send_request_snapshot_lf in Hx0. apply lf_fx in Hx0.
+  eapply fx_trans; [|exact Hx0]. fx_solve.
+Qed.
+
+Theorem ping_fx r r' : ping r = Ok r' -> fx r r'.
+Proof.
+  unfold ping. intros H. destruct (is_leader r); [|inversion H; apply fx_refl].
+  apply lf_fx. eapply bcast_heartbeat_with_ctx_lf; exact H.
+Qed.
+
+Theorem misc_api_fx :
+  (forall r t c r', adjust_max_inflight_msgs r t c = Ok r' -> fx r r') /\
+  (forall r, fx r (maybe_free_inflight_buffers r)) /\
+  (forall r k, fx r (set_max_apply_unpersisted_log_limit r k)) /\
+  (forall r e r', enable_group_commit r e = Ok r' -> fx r r') /\
+  (forall r ids r', assign_commit_groups r ids = Ok r' -> fx r r').
+Proof.
+  split; [|split; [|split; [|split]]].
+  - intros r t c r' H. unfold adjust_max_inflight_msgs in H.
+    destruct (get_pr r t); [|inversion H; apply fx_refl]. inv_bind H. inversion H; subst.
+    apply lf_fx. apply put_pr_lf.
+  - intros r. unfold maybe_free_inflight_buffers. fx_solve.
+  - intros r k. unfold set_max_apply_unpersisted_log_limit. fx_solve.
+  - intros r e r' H. unfold enable_group_commit in H.
+    set (r0 := r <| r_prs := (r_prs r) <| t_group_commit := e |> |>) in *.
+    assert (H0 : fx r r0) by (unfold r0; fx_solve).
+    eapply fx_trans; [exact H0|].
+    destruct (is_leader r0 && negb e); [|inversion H; apply fx_refl].
+    inv_bind H. destruct x as [r1 b]. apply maybe_commit_fx in Hx. cbn [fst snd] in H.
+    eapply fx_trans; [exact Hx|]. destruct b; [apply lf_fx; eapply bcast_append_lf; exact H|].
+    inversion H; apply fx_refl.
+  - intros r ids r' H. unfold assign_commit_groups in H. inv_bind H.
+    set (r0 := r <| r_prs := (r_prs r) <| t_progress := x |> |>) in *.
+    assert (H0 : fx r r0) by (unfold r0; fx_solve).
+    eapply fx_trans; [exact H0|].
+    destruct (is_leader r0 && t_group_commit (r_prs r0)); [|inversion H; apply fx_refl].
+    inv_bind H. destruct x0 as [r1 b]. apply maybe_commit_fx in Hx0. cbn [fst snd] in H.
+    eapply fx_trans; [exact Hx0|]. destruct b; [apply lf_fx; eapply bcast_append_lf; exact H|].
+    inversion H; apply fx_refl.
+Qed.
+
+(* --- RawNode wrappers --- *)
+
+Definition gxn (n n' : rawnode) : Prop := gx (rn_raft n) (rn_raft n').
+
+Lemma step_gx r m r' c : step r m = Ok (r', c) -> gx r r'.
+Proof. intros H. apply step_read_origin in H. apply H. Qed.
+
+Lemma lift2_step_gxn n m n' c : lift2 n (step (rn_raft n) m) = Ok (n', c) -> gxn n n'.
+Proof.
+  unfold lift2, gxn. intros H. inv_bind H. inversion H; subst. destruct x as [r1 c1]. cbn.
+  eapply step_gx; eassumption.
+Qed.
+
+Lemma step_fst_gxn n m x : step (rn_raft n) m = Ok x -> gxn n (n <| rn_raft := fst x |>).
+Proof. destruct x as [r1 c1]. unfold gxn. cbn. apply step_gx. Qed.
+
+Theorem rn_step_gx n m n' c : rn_step n m = Ok (n', c) -> gxn n n'.
+Proof.
+  unfold rn_step. intros H. destruct (is_local_msg (m_type m)); [inversion H; apply gx_refl|].
+  cif H; [eapply lift2_step_gxn; exact H|inversion H; apply gx_refl].
+Qed.
+
+Theorem rn_tick_gx n n' b : rn_tick n = Ok (n', b) -> gxn n n'.
+Proof.
+  unfold rn_tick, gxn. intros H. inv_bind H. inversion H; subst. destruct x as [r1 b1]. cbn.
+  eapply tick_gx; eassumption.
+Qed.
+
+Theorem rn_campaign_gx n n' c : rn_campaign n = Ok (n', c) -> gxn n n'.
+Proof. apply lift2_step_gxn. Qed.
+
+Theorem rn_propose_gx n ctx data n' c : rn_propose n ctx data = Ok (n', c) -> gxn n n'.
+Proof. apply lift2_step_gxn. Qed.
+
+Theorem rn_propose_conf_change_gx n ctx data ty ci n' c :
+  rn_propose_conf_change n ctx data ty ci = Ok (n', c) -> gxn n n'.
+Proof. apply lift2_step_gxn. Qed.
+
+Theorem rn_apply_conf_change_gx n cc n' ocs : rn_apply_conf_change n cc = Ok (n', ocs) -> gxn n n'.
+Proof.
+  unfold rn_apply_conf_change, gxn. intros H. inv_bind H. inversion H; subst.
+  destruct x as [r1 o1]. cbn. eapply raft_apply_conf_change_gx; eassumption.
+Qed.
+
+Theorem rn_ping_gx n n' : rn_ping n = Ok n' -> gxn n n'.
+Proof.
+  unfold rn_ping, lift, gxn. intros H. inv_bind H. inversion H; subst. cbn.
+  apply fx_gx. eapply ping_fx; eassumption.
+Qed.
+
+Lemma reduce_uncommitted_size_lf r ce : lf r (reduce_uncommitted_size r ce).
+Proof.
+  unfold reduce_uncommitted_size. destruct (negb (is_leader r)); [apply lf_refl|].
+  destruct (_ || _); [apply lf_refl|]. destruct (_ <? _); lf_solve.
+Qed.
+
+Lemma gen_light_ready_gx n n' lr : gen_light_ready n = Ok (n', lr) -> gxn n n'.
+Proof.
+  unfold gen_light_ready, gxn. intros H. inv_bind H. inv_bind H. inversion H; subst. cbn.
+  pose proof (reduce_uncommitted_size_lf (rn_raft n) (match x with Some v => v | None => [] end)) as Hl.
+  destruct Hl as (A & B & _ & _ & C0 & _). unfold gx. cbn. rewrite A, B, C0.
+  split; [lia|]. split; [reflexivity|]. split; [reflexivity|auto].
+Qed.
+
+(* Ready hands the accumulated read states to the application, and clears them *)
+Theorem rn_ready_read_states n n' rd :
+  rn_ready n = Ok (n', rd) ->
+  rd_read_states rd = r_read_states (rn_raft n) /\ r_read_states (rn_raft n') = [] /\ gxn n n'.
+Proof.
+  unfold rn_ready. intros H. inv_bind H. inv_bind H. destruct x0 as [[[snap csi] rec_snap] ms2].
+  inv_bind H. destruct x0 as [n2 light]. inversion H; subst. clear H. cbn [rd_read_states rn_raft].
+  split; [reflexivity|].
+  pose proof Hx1 as Hg. apply gen_light_ready_gx in Hg. unfold gxn in Hg. cbn in Hg.
+  unfold gen_light_ready in Hx1. inv_bind Hx1. inv_bind Hx1. inversion Hx1; subst. cbn.
+  split.
+  - pose proof (reduce_uncommitted_size_lf ((rn_raft n) <| r_read_states := [] |>)
+                  (match x0 with Some v => v | None => [] end)) as Hl.
+    destruct Hl as (_ & _ & A & _). cbn in A. exact A.
+  - unfold gxn. cbn. cbn in Hg. exact Hg.
+Qed.
+
+Lemma stable_committed l l1 l2 (os oe : option (N * N)) :
+  (match os with Some (i, _) => stable_snap l i | None => Ok l end) = Ok l1 ->
+  (match oe with Some (i, t) => stable_entries l1 i t | None => Ok l1 end) = Ok l2 ->
+  committed l2 = committed l.
+Proof.
+  intros H1 H2.
+  assert (A : committed l1 = committed l).
+  { destruct os as [[i t]|]; [|inversion H1; reflexivity].
+    unfold stable_snap in H1. inv_bind H1. inversion H1; reflexivity. }
+  rewrite <- A. destruct oe as [[i t]|]; [|inversion H2; reflexivity].
+  unfold stable_entries in H2. inv_bind H2. inversion H2; reflexivity.
+Qed.
+
+Theorem commit_ready_gx n rd n' : commit_ready n rd = Ok n' -> gxn n n'.
+Proof.
+  unfold commit_ready. intros H.
+  set (n1 := match rd_ss rd with Some ss => n <| rn_prev_ss := ss |> | None => n end) in *.
+  set (n2 := match rd_hs rd with Some hs => n1 <| rn_prev_hs := hs |> | None => n1 end) in *.
+  assert (Hr : rn_raft n2 = rn_raft n).
+  { unfold n2, n1. destruct (rd_hs rd), (rd_ss rd); reflexivity. }
+  destruct (rn_records n2); [discriminate|]. cif H; [discriminate|].
+  inv_bind H. inv_bind H. inversion H; subst. unfold gxn. cbn.
+  pose proof (stable_committed _ _ _ _ _ Hx Hx0) as Hc. rewrite Hr in *.
+  unfold gx. cbn. rewrite Hc. split; [lia|]. split; [reflexivity|]. split; [reflexivity|auto].
+Qed.
+
+Theorem rn_on_persist_ready_gx n k n' : rn_on_persist_ready n k = Ok n' -> gxn n n'.
+Proof.
+  unfold rn_on_persist_ready. intros H.
+  destruct (fold_records (rn_records n) k 0 0 0) as [[[recs index] t] snap_index].
+  inv_bind H. inv_bind H. inversion H; subst. unfold gxn. cbn. cbn in Hx, Hx0.
+  assert (H1 : fx (rn_raft n) x).
+  { destruct (negb (snap_index =? 0)); [eapply on_persist_snap_fx; exact Hx|].
+    inversion Hx; apply fx_refl. }
+  assert (H2 : fx x x0).
+  { destruct (negb (index =? 0)); [eapply on_persist_entries_fx; exact Hx0|].
+    inversion Hx0; apply fx_refl. }
+  apply fx_gx. eapply fx_trans; eassumption.
+Qed.
+
+Theorem rn_advance_append_gx n rd n' lr : rn_advance_append n rd = Ok (n', lr) -> gxn n n'.
+Proof.
+  unfold rn_advance_append. intros H. inv_bind H. inv_bind H. inv_bind H. destruct x1 as [n3 light].
+  apply commit_ready_gx in Hx. apply rn_on_persist_ready_gx in Hx0. apply gen_light_ready_gx in Hx1.
+  assert (H3 : gxn n n3) by (unfold gxn in *; eapply gx_trans; [exact Hx|eapply gx_trans; eassumption]).
+  cif H; [discriminate|]. inv_bind H. destruct x1 as [n4 ci].
+  cif H; [discriminate|]. inversion H; subst.
+  assert (H4 : rn_raft n' = rn_raft n3).
+  { cif Hx2; [inversion Hx2; reflexivity|]. cif Hx2; [discriminate|]. inversion Hx2; reflexivity. }
+  unfold gxn in *. rewrite H4. exact H3.
+Qed.
+
+Theorem rn_advance_apply_to_gx n app n' : rn_advance_apply_to n app = Ok n' -> gxn n n'.
+Proof.
+  unfold rn_advance_apply_to, lift, gxn. intros H. inv_bind H. inversion H; subst. cbn.
+  apply fx_gx. eapply commit_apply_fx; eassumption.
+Qed.
+
+Theorem rn_advance_apply_gx n n' : rn_advance_apply n = Ok n' -> gxn n n'.
+Proof. apply rn_advance_apply_to_gx. Qed.
+
+Theorem rn_advance_gx n rd n' lr : rn_advance n rd = Ok (n', lr) -> gxn n n'.
+Proof.
+  unfold rn_advance. intros H. inv_bind H. inv_bind H. inversion H; subst. destruct x as [na la].
+  apply rn_advance_append_gx in Hx. apply rn_advance_apply_to_gx in Hx0. cbn [fst] in Hx0.
+  unfold gxn in *. eapply gx_trans; eassumption.
+Qed.
+
+Theorem rn_advance_append_async_gx n rd n' : rn_advance_append_async n rd = Ok n' -> gxn n n'.
+Proof. apply commit_ready_gx. Qed.
+
+Theorem rn_report_unreachable_gx n id n' : rn_report_unreachable n id = Ok n' -> gxn n n'.
+Proof. unfold rn_report_unreachable. intros H. inv_bind H. inversion H; subst. eapply step_fst_gxn; eassumption. Qed.
+
+Theorem rn_report_snapshot_gx n id f n' : rn_report_snapshot n id f = Ok n' -> gxn n n'.
+Proof. unfold rn_report_snapshot. intros H. inv_bind H. inversion H; subst. eapply step_fst_gxn; eassumption. Qed.
+
+Theorem rn_request_snapshot_gx n n' c : rn_request_snapshot n = Ok (n', c) -> gxn n n'.
+Proof.
+  unfold rn_request_snapshot, lift2, gxn. intros H. inv_bind H. inversion H; subst.
+  destruct x as [r1 c1]. cbn. apply fx_gx. eapply request_snapshot_fx; eassumption.
+Qed.
+
+Theorem rn_transfer_leader_gx n t n' : rn_transfer_leader n t = Ok n' -> gxn n n'.
+Proof. unfold rn_transfer_leader. intros H. inv_bind H. inversion H; subst. eapply step_fst_gxn; eassumption. Qed.
+
+Theorem rn_read_index_gx n ctx n' : rn_read_index n ctx = Ok n' -> gxn n n'.
+Proof. unfold rn_read_index. intros H. inv_bind H. inversion H; subst. eapply step_fst_gxn; eassumption. Qed.
+
+Theorem rn_ready_gx n n' rd : rn_ready n = Ok (n', rd) -> gxn n n'.
+Proof. intros H. apply rn_ready_read_states in H. apply H. Qed.
